@@ -118,10 +118,17 @@ class AddEnclosingMiddleware(BlockMiddleware):
 
     def _enclose(self, value: str, metadata_enclosing: str, apply_int_rule: bool) -> str:
         enclosing = self._default_enclosing
-        if self._reuse_previous_enclosing and metadata_enclosing is not None:
+        reused = self._reuse_previous_enclosing and metadata_enclosing is not None
+        if reused:
             enclosing = metadata_enclosing
         elif apply_int_rule and not self._enclose_integers and str(value).isdigit():
             return value
+
+        if not reused and isinstance(value, str) and value.endswith("\\"):
+            # A backslash directly before the closing delimiter would make the splitter take that
+            # delimiter for an escaped character; a blank in between keeps the written text parsable.
+            # (A recorded enclosing is restored exactly as it was.)
+            value = value + " "
 
         if enclosing == "{":
             return f"{{{value}}}"
